@@ -158,6 +158,7 @@ def run_one(ctx, extras):
         ghex = gs[r["gi"]].encode().hex()
         for wi, row in enumerate(r["rows"]):
             if row.get("inp") is None: continue
+            if "NONTERM" in (row["vm"]["res"], row["gen"]["res"]): continue      # would not return natively either (termination is C06's subject)
             reqv.append(f"0 0 {row['inp']} {r['start']} {ghex}"); reqg.append(f"{r['gi']} {r['start']} {row['inp']}"); idx.append((ri, wi))
     repv = c01.native_vm(reqv, extras); repg = gensym.run_native(binary, reqg) if reqg else []
     enc = []; events = []; validated = 0
